@@ -183,6 +183,34 @@ JTemplates == { <<1, <<1, 2, 3, 4>>>>, <<28, F(16, 1)>>, <<13, <<1, 97, 1, 98>>>
                 <<6, <<1, 98, 0, 192, 12>> \o Zero20>>, <<41, <<0, 10, 0, 1, 7>>>> }
 JVariants(rd) == { rd, rd \o <<7>>, rd \o <<7, 7, 7, 7>>, rd \o <<0>>, SubSeq(rd, 1, Len(rd) - 1) }
 
+\* Family X: a well-formed message with two or three records in every
+\* section, cut at every length (header counts unchanged): a truncated record
+\* at every position of every section.
+XRec(b) == <<0, 0, 1, 0, 1, 0, 0, 0, 60, 0, 4, b, b, b, b>>
+XFull == Hdr(<<32768, 1, 2, 2, 3>>) \o <<1, 97, 0, 0, 1, 0, 1>>
+           \o XRec(1) \o XRec(2) \o XRec(3) \o XRec(4) \o XRec(5) \o XRec(6)
+           \o <<0, 0, 41, 4, 208, 0, 0, 0, 0, 0, 0>>
+
+\* Family F: larger messages (a filler record) so that a name and the targets
+\* of the pointers into it sit at offsets 255/256/257, 300, 511/512: names
+\* whose pointer needs the high six bits.
+FarTargets == {255, 256, 257, 300, 511, 512}
+FarMsg(T, d) ==
+  LET ptr(x) == <<192 + (x \div 256), x % 256>> IN
+  Hdr(<<32768, 1, 3, 0, 0>>) \o <<1, 97, 0, 0, 1, 0, 1>>
+    \o <<0>> \o EncU16(65280) \o <<0, 1, 0, 0, 0, 60>> \o EncU16(T - 30) \o F(T - 30, 7)
+    \o <<4, 109, 97, 105, 108, 7, 101, 120, 97, 109, 112, 108, 101, 3, 99, 111, 109, 0>>
+    \o <<0, 1, 0, 1, 0, 0, 0, 60, 0, 4, 1, 2, 3, 4>>
+    \o <<3, 102, 116, 112>> \o ptr(T + d) \o <<0, 5, 0, 1, 0, 0, 0, 60, 0, 4, 1, 120>> \o ptr(T + 5)
+FarStarts(T) == <<T, T + 32, T + 48>>
+
+\* Family E: OPT records with extended rcode /= version, DO set and clear,
+\* payload sizes 0 / 512 / 65535, with and without an option
+EdnsMsgs == { Hdr(<<32768, 1, 0, 0, 1>>) \o <<1, 97, 0, 0, 1, 0, 1>>
+                \o <<0, 0, 41>> \o EncU16(c) \o EncU16(hi) \o EncU16(lo) \o EncU16(Len(o)) \o o :
+              c \in {0, 512, 65535}, hi \in {0, 256, 1, 4097, 5888}, lo \in {0, 32768, 32769},
+              o \in {<<>>, OneOpt(10, F(8, 1))} }
+
 TTypes == {47, 50, 51, 16, 13, 64, 65, 45, 250, 46, 35, 257, 48, 43, 33, 63, 52, 44, 61, 10, 39, 17, 14}
 HT == { <<32768, 1, 1, 0, 0>>, <<32768, 1, 0, 0, 1>> }
 
@@ -204,6 +232,9 @@ Phase1 ==
      \/ \E h \in HT, t \in TTypes : sel' = <<"T", h, t>>
      \/ \E k \in 0..3 : sel' = <<"O", k>>
      \/ \E h \in HT : sel' = <<"J", h>>
+     \/ \E k \in 0..3 : sel' = <<"X", k>>
+     \/ \E T \in FarTargets : sel' = <<"F", T>>
+     \/ \E k \in 0..2 : sel' = <<"E", k>>
 
 Finish(msg) == ph' = 2 /\ m' = msg /\ nw' = NWInit(msg) /\ UNCHANGED sel
 
@@ -233,6 +264,14 @@ Phase2 ==
      \/ /\ sel[1] = "O"          \* an OPT record with one (or two) options from the grid
         /\ \E o \in {x \in OptionAlts : Len(x) % 4 = sel[2]} :
               Finish(Hdr(<<32768, 1, 0, 0, 1>>) \o <<1, 97, 0, 0, 1, 0, 1>> \o Rec(<<0>>, T_OPT, o, 0))
+     \/ /\ sel[1] = "X"
+        /\ \E n \in {i \in 12..Len(XFull) : i % 4 = sel[2]} : Finish(SubSeq(XFull, 1, n))
+     \/ /\ sel[1] = "F"
+        /\ \E d \in {0, 5, 13} :
+              /\ ph' = 2 /\ m' = FarMsg(sel[2], d) /\ nw' = NWInit(m')
+              /\ sel' = <<"Ldone", FarStarts(sel[2])>>
+     \/ /\ sel[1] = "E"
+        /\ \E e \in {x \in EdnsMsgs : Len(x) % 3 = sel[2]} : Finish(e)
      \/ /\ sel[1] = "J"          \* RDLENGTH covering exact / padded / cut RDATA, every type of the new API
         /\ \E tp \in JTemplates : \E rd \in JVariants(tp[2]) :
               Finish(Hdr(sel[2]) \o <<1, 97, 0, 0, 1, 0, 1>> \o Rec(<<192, 12>>, tp[1], rd, 0))
